@@ -229,6 +229,8 @@ def run(ctx):  # noqa: C901, PLR0912, PLR0915
     from . import common
     common.update_from_other_is_total(ctx, 'C06.R2')   # the in-place update makes the mirrored state equal to the reported one
     ctx.borrow('C11', {'C11.R1'}, 'C06.R2', why='a rejected duplicate leaves the consumer tables consistent')
+    ctx.borrow('C07', {'C07.R1', 'C07.R2'}, 'C06.R4', contains=['_on_get_mdib', 'reconstruct'], why='the GetMdib answer states the version of the content it carries')
+    ctx.borrow('C11', {'C11.R3'}, 'C06.R2', contains=['get_one evaluates'], why='lookups stay consistent while a report is applied')
     ctx.borrow('C18', {'C18.R2'}, 'C06.R2', contains=['timestamp 0 is valid'], why='a legal value never raises in the middle of an in-place update')
     # a log call that raises inside a report handler loses the report
     common.log_templates_are_constant(ctx, 'C06.R3', ['sdc11073.mdib.consumermdib', 'sdc11073.consumer.consumerimpl',
